@@ -5,6 +5,39 @@ restated at the end of Props/C01.v / Props/C02.v.
 _DO_CALL = ['cnarr', 'variants', 'method', 'ploidy', 'purity', 'is_haploid_x_reference', 'is_sample_female',
             'diploid_parx_genome', 'filters', 'thresholds']
 
+import ast, os, sys
+
+
+def _repo():
+    for name in ('py2v_fn', '__main__'):
+        m = sys.modules.get(name)
+        if m is not None and hasattr(m, 'REPO') and hasattr(m, 'FnTranslator'):
+            return m.REPO
+    return os.environ.get('CNVKIT_REPO', '/repo')
+
+
+def _guard_test(rel, fname, index, exc):
+    """statement number `index` of the function's body (docstring not counted) must be `if <TEST>: raise <exc>(...)` with
+    nothing else in it  ->  (source of TEST, prefix that finds the statement); an error path is outside a translated body,
+    so the test is handed over as a result of its own.  Fail-closed: any other shape gives a fragment that is not found."""
+    try:
+        src = open(os.path.join(_repo(), rel)).read()
+        fn = [n for n in ast.walk(ast.parse(src)) if isinstance(n, ast.FunctionDef) and n.name == fname]
+        if len(fn) != 1:
+            raise ValueError('%d definitions of %s' % (len(fn), fname))
+        body = [x for x in fn[0].body if not (isinstance(x, ast.Expr) and isinstance(x.value, ast.Constant))]
+        st = body[index]
+        if not (isinstance(st, ast.If) and not st.orelse and len(st.body) == 1 and isinstance(st.body[0], ast.Raise)
+                and isinstance(st.body[0].exc, ast.Call) and ast.unparse(st.body[0].exc.func) == exc):
+            raise ValueError('statement %d of %s is not `if T: raise %s(..)`' % (index, fname, exc))
+        return ast.unparse(st.test), 'if ' + ast.unparse(st.test)
+    except Exception as e:   # noqa -- fail closed
+        return 'True', '<%s no longer has the expected shape: %s>' % (rel, e)
+
+
+_METHOD_TEST = _guard_test('cnvlib/call.py', 'do_call', 0, 'ValueError')
+_PURITY_TEST = _guard_test('cnvlib/commands.py', '_cmd_call', 0, 'RuntimeError')
+
 _ROW = [('self.chromosome', 'S', 'chromosome'), ('self.start', 'Z', 'start'), ('self.end', 'Z', 'end_')]
 
 
@@ -93,5 +126,25 @@ MODULES = {
              params=[("'chr_y' in self.meta", 'B', 'cached'), ("self.meta['chr_y']", 'S', 'cached_label'), ('len(self)', 'Z', 'n_rows'),
                      ('self.chr_x_label', 'S', 'x_label')],
              ret='S'),
+    ]),
+    # the argument checks in front of the calling code, each `if <TEST>: raise ...` as the FIRST statement of its function
+    # (shape checked with `ast`, the test handed over as a result):
+    #   do_call     `if method not in ("threshold", "clonal", "none"): raise ValueError`
+    #   _cmd_call   `if args.purity and not 0.0 < args.purity <= 1.0: raise RuntimeError`, and the sample-sex lookup
+    #               `is_sample_female = (verify_sample_sex(...) if args.purity and args.purity < 1.0 else None)`
+    'FnCallGuards': ('cnvlib/call.py', [
+        dict(name='do_call', coq='fn_method_rejected', py_params=_DO_CALL,
+             fragment=dict(first=_METHOD_TEST[1], last=_METHOD_TEST[1]),
+             params=[('method', 'S')], returns=[_METHOD_TEST[0]], ret='B'),
+    ]),
+    'FnCallCmdGuards': ('cnvlib/commands.py', [
+        dict(name='_cmd_call', coq='fn_purity_rejected', py_params=['args'],
+             fragment=dict(first=_PURITY_TEST[1], last=_PURITY_TEST[1]),
+             params=[('args.purity', 'OQ', 'purity')], returns=[_PURITY_TEST[0]], ret='B'),
+        dict(name='_cmd_call', coq='fn_cmd_sample_sex', py_params=['args'],
+             fragment=dict(first='is_sample_female = ', last='is_sample_female = '),
+             params=[('args.purity', 'OQ', 'purity'),
+                     ('verify_sample_sex(cnarr, args.sample_sex, args.male_reference, args.diploid_parx_genome)', 'OB', 'verified_female')],
+             returns=['is_sample_female'], ret='OB'),
     ]),
 }
